@@ -124,9 +124,8 @@ class Tiles:
         base_shape = shape_(base_shape)
         self._tile_shape = tile_shape
         self._base_shape = base_shape
-        ny, nx = (
-            int(math.ceil(float(N) / n)) for N, n in zip(base_shape.yx, tile_shape.yx)
-        )
+        # integer ceil division: ``float(N) / n`` is inexact beyond 2**53
+        ny, nx = (-(-N // n) for N, n in zip(base_shape.yx, tile_shape.yx))
         self._shape = shape_((ny, nx))
 
     def crop(self, roi: ROI) -> "Tiles":
